@@ -1,0 +1,171 @@
+//! Verification hooks. Only compiled with `--cfg rssched_verif`.
+//!
+//! Provides a projection of a [`Schedule`] to a JSON value that uses public getters only, and a
+//! process-global recorder of trace events (off unless enabled).
+
+use std::panic::{catch_unwind, AssertUnwindSafe};
+use std::sync::Mutex;
+
+use model::base_types::VehicleIdx;
+use serde_json::{json, Value};
+
+use crate::tour::Tour;
+use crate::Schedule;
+
+static RECORDER: Mutex<Option<Vec<String>>> = Mutex::new(None);
+
+/// Switch the recorder on (clears previously recorded events).
+pub fn enable() {
+    *RECORDER.lock().unwrap_or_else(|e| e.into_inner()) = Some(Vec::new());
+}
+
+/// Switch the recorder off and drop recorded events.
+pub fn disable() {
+    *RECORDER.lock().unwrap_or_else(|e| e.into_inner()) = None;
+}
+
+pub fn is_enabled() -> bool {
+    RECORDER
+        .lock()
+        .unwrap_or_else(|e| e.into_inner())
+        .is_some()
+}
+
+/// Take all recorded events (one JSON object per entry); the recorder stays on.
+pub fn drain() -> Vec<String> {
+    match RECORDER.lock().unwrap_or_else(|e| e.into_inner()).as_mut() {
+        Some(events) => std::mem::take(events),
+        None => Vec::new(),
+    }
+}
+
+/// Record an arbitrary event (no-op if the recorder is off).
+pub fn record_event(event: Value) {
+    if let Some(events) = RECORDER.lock().unwrap_or_else(|e| e.into_inner()).as_mut() {
+        events.push(event.to_string());
+    }
+}
+
+/// Record a snapshot of the schedule under the given label (no-op if the recorder is off).
+pub fn record_stage(label: &str, schedule: &Schedule) {
+    if !is_enabled() {
+        return;
+    }
+    record_event(json!({"ev": "stage", "label": label, "S": project(schedule)}));
+}
+
+fn project_tour(schedule: &Schedule, id: VehicleIdx, tour: &Tour) -> Value {
+    let network = schedule.get_network();
+    let nodes: Vec<String> = tour
+        .all_nodes_iter()
+        .map(|n| network.node(n).id().to_string())
+        .collect();
+    let ty = match schedule.vehicle_type_of(id) {
+        Ok(vt) => network.vehicle_types().get(vt).unwrap().id().clone(),
+        Err(_) => String::from("-"),
+    };
+    json!({
+        "id": id.to_string(),
+        "ix": id.idx(),
+        "ty": ty,
+        "n": nodes,
+        "dummy": tour.is_dummy(),
+        "sd": tour.service_distance().in_meter().map(|m| m as i64).unwrap_or(-1),
+        "dd": tour.dead_head_distance().in_meter().map(|m| m as i64).unwrap_or(-1),
+        "ud": tour.useful_duration().in_sec().map(|s| s as i64).unwrap_or(-1),
+        "c": tour.costs(),
+        "vm": tour.visits_maintenance(),
+        "mc": tour.maintenance_counter(),
+    })
+}
+
+/// Projection of the schedule through public getters only.
+pub fn project(schedule: &Schedule) -> Value {
+    let network = schedule.get_network();
+    let vehicle_types = network.vehicle_types();
+
+    let mut vehicles = Vec::new();
+    let mut transitions = Vec::new();
+    for vt in vehicle_types.iter() {
+        let type_id = vehicle_types.get(vt).unwrap().id().clone();
+        for v in schedule.vehicles_iter(vt) {
+            vehicles.push(project_tour(schedule, v, schedule.tour_of(v).unwrap()));
+        }
+        let transition = schedule.next_day_transition_of(vt);
+        let cycles: Vec<Value> = transition
+            .cycles_iter()
+            .map(|c| {
+                json!({
+                    "v": c.iter().map(|v| v.to_string()).collect::<Vec<_>>(),
+                    "c": c.maintenance_counter(),
+                })
+            })
+            .collect();
+        let successors: Vec<Value> = schedule
+            .vehicles_iter(vt)
+            .map(|v| {
+                let s = catch_unwind(AssertUnwindSafe(|| transition.get_successor_of(v)))
+                    .map(|s| s.to_string())
+                    .unwrap_or_else(|_| String::from("?"));
+                json!({"v": v.to_string(), "s": s})
+            })
+            .collect();
+        transitions.push(json!({
+            "ty": type_id,
+            "cyc": cycles,
+            "viol": transition.maintenance_violation(),
+            "cnt": transition.maintenance_counter(),
+            "succ": successors,
+        }));
+    }
+
+    let dummies: Vec<Value> = schedule
+        .dummy_iter()
+        .map(|d| project_tour(schedule, d, schedule.tour_of(d).unwrap()))
+        .collect();
+
+    let formations: Vec<Value> = network
+        .coverable_nodes()
+        .map(|n| {
+            json!({
+                "n": network.node(n).id(),
+                "v": schedule
+                    .train_formation_of(n)
+                    .ids()
+                    .iter()
+                    .map(|v| v.to_string())
+                    .collect::<Vec<_>>(),
+            })
+        })
+        .collect();
+
+    let mut depot_idxs: Vec<_> = network.depots_iter().collect();
+    depot_idxs.sort();
+    let mut depots = Vec::new();
+    for d in depot_idxs {
+        for vt in vehicle_types.iter() {
+            depots.push(json!({
+                "d": network.get_depot(d).id(),
+                "ty": vehicle_types.get(vt).unwrap().id(),
+                "sp": schedule.number_of_vehicles_of_same_type_spawned_at(d, vt),
+                "bal": schedule.depot_balance(d, vt),
+                "tot": schedule.number_of_vehicles_spawned_at(d),
+            }));
+        }
+    }
+
+    let unserved = schedule.unserved_passengers();
+    json!({
+        "veh": vehicles,
+        "dum": dummies,
+        "form": formations,
+        "tr": transitions,
+        "dep": depots,
+        "costs": schedule.costs(),
+        "unP": unserved.0,
+        "unS": unserved.1,
+        "viol": schedule.maintenance_violation(),
+        "nveh": schedule.number_of_vehicles(),
+        "ndum": schedule.number_of_dummy_tours(),
+    })
+}
